@@ -121,7 +121,9 @@ func cmdCheck(args []string) {
 		fmt.Fprintln(os.Stderr, "engine error:", err)
 		os.Exit(2)
 	}
-	reps := w.generate(func(fs *FuncSpec) bool { return specMentions(fs, prop) })
+	// C09 (nothing shared is written): besides the contracts tagged C09, the FRAME obligations of every function under contract
+	allFrames := prop == "C09"
+	reps := w.generate(func(fs *FuncSpec) bool { return allFrames || specMentions(fs, prop) })
 	var all []*Obligation
 	var refused []string
 	var fuc []string
@@ -139,6 +141,9 @@ func cmdCheck(args []string) {
 		}
 		for _, o := range r.Obls {
 			if hasProp(o.Props, prop) {
+				all = append(all, o)
+			} else if allFrames && strings.HasPrefix(o.Kind, "frame") {
+				o.Props = append(append([]string{}, o.Props...), prop)
 				all = append(all, o)
 			}
 		}
